@@ -108,15 +108,29 @@ pub open spec fn vx_positive_delay_spec(o: Option<Duration>) -> Option<Duration>
 pub fn vx_positive_delay(o: Option<Duration>) -> (r: Option<Duration>)
     ensures r == vx_positive_delay_spec(o),
 { match o { Some(d) => if d.nanos > 0 { Some(d) } else { None }, None => None } }
-/// HedgeDelay::get_delay by contract (its body is extracted and proved below)
-pub struct HedgeDelay { pub id: Ghost<int> }
-pub uninterp spec fn delay_spec(d: HedgeDelay, attempt: usize) -> Option<Duration>;
-impl HedgeDelay {
+/// the user's delay callback (Arc<dyn Fn(usize) -> Duration>): a pure function of the attempt number, by assumption
+pub struct DelayFn { pub id: Ghost<int> }
+pub uninterp spec fn delay_fn_spec(f: DelayFn, attempt: usize) -> Duration;
+impl DelayFn {
     #[verifier::external_body]
-    pub fn get_delay(&self, attempt: usize) -> (r: Option<Duration>) ensures r == delay_spec(*self, attempt) { unimplemented!() }
+    pub fn vx_call(&self, attempt: usize) -> (r: Duration) ensures r == delay_fn_spec(*self, attempt) { unimplemented!() }
+}
+pub open spec fn delay_spec(d: HedgeDelay, attempt: usize) -> Option<Duration> {
+    match d {
+        HedgeDelay::Fixed(x) => Some(x),
+        HedgeDelay::Immediate => Some(Duration { nanos: 0 }),
+        HedgeDelay::Dynamic(f) => Some(delay_fn_spec(*f, attempt)),
+    }
 }
 
 // ---- types of /repo (shape-checked) ----
+pub enum HedgeDelay { Fixed(Duration), Immediate, Dynamic(Arc<DelayFn>) }
+impl HedgeDelay {
+    pub fn get_delay(&self, attempt: usize) -> (r: Option<Duration>)
+        ensures r == delay_spec(*self, attempt),   // #fixed_delay_for_every_attempt_zero_when_immediate_the_callbacks_value_otherwise [C12]
+            r is Some,   // #every_attempt_has_a_delay [C12]
+    //@body HedgeDelay::get_delay file=config
+}
 pub enum HedgeError<E> { AllAttemptsFailed(E), Inner(E) }
 pub struct HedgeConfig { pub name: Option<Name>, pub max_hedged_attempts: usize, pub delay: HedgeDelay, pub listeners: EventListeners }
 pub struct Hedge<Req, Res, E> { pub inner: Inner<Req, Res, E>, pub config: Arc<HedgeConfig> }
